@@ -91,6 +91,13 @@ def gen_scenarios(rng, tier):
     sc.append(dict(name="corpus-atexit-cycles", cfg=(1, 1), cycles=[([], "")] * (36 if quick else 70)))
     sc.append(dict(name="corpus-all", cfg=(2, 2), cycles=[(list(WORKLOADS), "ri rf")] * 4))
     sc.append(dict(name="corpus-dict-barrier", cfg=(3, 1), cycles=[(["dict", "barrier"], "rf"), (["dict"], ""), (["barrier", "qarray"], "ri"), (["dict", "barrier", "qarray"], "")]))
+    # workers that are inactive when finalize runs: created inactive (QT_HWPAR leaves a remainder: the last worker(s) of the
+    # grid start disabled) or disabled by the program (flag dw: qthread_disable_worker of a worker with index >= 1); finalize
+    # must wake them so that they exit ("for every shepherd/worker configuration")
+    sc.append(dict(name="corpus-hwpar-remainder-4x2-7", cfg=(4, 2), env={"QT_HWPAR": 7}, cycles=[([], ""), (["spawn", "feb"], ""), ([], "ri")]))
+    sc.append(dict(name="corpus-hwpar-remainder-2x3-5", cfg=(2, 3), env={"QT_HWPAR": 5}, cycles=[(["spawn"], ""), (["sinc", "qpool"], "rf")]))
+    sc.append(dict(name="corpus-disable-worker-2x2", cfg=(2, 2), cycles=[(["spawn"], "dw"), (["feb", "sinc"], "dw"), ([], "dw")]))
+    sc.append(dict(name="corpus-disable-worker-1x3", cfg=(1, 3), cycles=[(["spawn", "qpool"], "dw"), ([], "")]))
     configs = [(1, 1), (2, 1), (2, 2), (4, 1)] if quick else [(1, 1), (1, 3), (2, 1), (2, 2), (3, 2), (4, 1), (4, 2), (8, 1)]
     for cfg in configs:
         for rep in range(1 if quick else 2):
@@ -155,10 +162,10 @@ def run(ctx):
     for sc in scenarios:
         ns, nw = sc["cfg"]
         lines = ["C %s %s" % (",".join(ws) if ws else "none", fl) for ws, fl in sc["cycles"]]
-        env = core.qenv(ns, nw, stack=sc.get("stack", 65536))
+        env = core.qenv(ns, nw, stack=sc.get("stack", 65536), **sc.get("env", {}))
         rc, out, err = core.run_lines(exe, lines, timeout=180 + 3 * len(lines), env=env)
         base, cycles, tmo, ended = parse_run(out)
-        case = dict(scenario=sc["name"], config=[ns, nw], stack=sc.get("stack", 65536),
+        case = dict(scenario=sc["name"], config=[ns, nw], stack=sc.get("stack", 65536), env=sc.get("env", {}),
                     cycles=[{"workloads": ws, "flags": fl} for ws, fl in sc["cycles"]])
         if base is None:
             raise core.BuildError("c19 harness did not start: rc=%s %s" % (rc, err[-400:]))
@@ -194,8 +201,11 @@ def run(ctx):
                 probs.append("%d OS threads after finalize, %d before the first initialize" % (int(Z["threads"]), b_thr))
             if int(Z["fds"]) != b_fd:
                 probs.append("%d open descriptors after finalize, %d before the first initialize" % (int(Z["fds"]), b_fd))
-            if (int(Y["sheps"]), int(Y["workers"])) != (ns, ns * nw):
-                probs.append("incarnation %d has %s shepherds / %s workers, configured %d / %d" % (cyc, Y["sheps"], Y["workers"], ns, ns * nw))
+            nact = int(sc.get("env", {}).get("QT_HWPAR", ns * nw))      # qthread_num_workers() counts the ACTIVE workers
+            if "dw" in fl.split() and nw >= 2:
+                nact -= 1                                               # the harness disabled one before it sampled
+            if (int(Y["sheps"]), int(Y["workers"])) != (ns, nact):
+                probs.append("incarnation %d has %s shepherds / %s workers, configured %d / %d" % (cyc, Y["sheps"], Y["workers"], ns, nact))
             if int(Y["threads_run"]) - b_thr != ns * nw - 1:
                 probs.append("%d worker threads after initialize, expected %d" % (int(Y["threads_run"]) - b_thr, ns * nw - 1))
             if Y["smoke"] != "1" or Y["wl_bad"] != "-":
@@ -305,7 +315,7 @@ def replay(ctx, path):
     exe = ctx.link("c19_lifecycle", SOURCES, exclude=EXCLUDE, cflags=["-no-pie"])
     ns, nw = case["config"]
     lines = ["C %s %s" % (",".join(c["workloads"]) if c["workloads"] else "none", c["flags"]) for c in case["cycles"]]
-    rc, out, err = core.run_lines(exe, lines, timeout=300, env=core.qenv(ns, nw, stack=case.get("stack", 65536)))
+    rc, out, err = core.run_lines(exe, lines, timeout=300, env=core.qenv(ns, nw, stack=case.get("stack", 65536), **case.get("env", {})))
     print("\n".join(out[-12:]))
     base, cycles, tmo, ended = parse_run(out)
     if tmo or not ended:
